@@ -118,7 +118,8 @@ def run(repo: Repo, rep: Report, tier: str) -> None:
             t = se.term(outer, {})
             core = t
             wrapped = core[0] == "wrap32"
-            key = f"{f.short} computes {norm(n)} on constant values"
+            from .util import ckey as _ckey
+            key = f"{f.short} computes {_ckey(f, n)} on constant values"
             if kind == "neg" or kind in ("sum", "pow", "aug") or (kind == "binop" and isinstance(n.op, (ast.Add, ast.Sub, ast.Mult, ast.Pow, ast.LShift))):
                 rep.check(wrapped, "C11-R2", key + ("" if wrapped else " [no-wrap]"),
                           f"value is {show(t)}" + ("" if wrapped else ": unbounded Python integer, run time wraps to signed 32 bits"), f.loc(n))
